@@ -195,12 +195,17 @@ Fixpoint render_items (its : list (lay * item)) (fin : lay) : list N :=
 Definition first_code (its : list (lay * item)) : option N :=
   match its with [] => None | (_, it) :: _ => hd_error (render_item it) end.
 
-(* a name is not followed by "!" "(" (with any layout in between): it does not begin a macro call
-   with a bracket.  (A macro call with "(" whose arguments do not begin with a string literal, such
-   as assert!(a > b), is outside this language.) *)
+(* a name does not begin a macro call whose bracket is followed by a name, a string literal or
+   `target:` : either the code after the name is not "!", or what follows the "!" is not "(", or what
+   follows the "(" (after any layout) starts with a character that is neither a name start nor a
+   quote -- vec![..], a != b, assert!(!x), m!(1 + 2), f!((a, b)).  (A bracketed call whose first
+   argument is a name, such as assert!(a > b), is outside this language; println!("..") is a statement.) *)
+Definition args_start_plain (r3 : list (lay * item)) : Prop :=
+  match first_code r3 with Some c => name_start_ok c = false /\ c <> 34 | None => True end.
 Definition not_a_call (r : list (lay * item)) : Prop :=
   match r with
-  | (_, IChar 33) :: r2 => first_code r2 <> Some 40
+  | (_, IChar 33) :: r2 =>
+      first_code r2 = Some 40 -> match r2 with _ :: r3 => args_start_plain r3 | [] => True end
   | _ => True
   end.
 
@@ -383,6 +388,9 @@ Proof.
   destruct (N.eqb_spec c d) as [->|]; [exfalso; apply H; reflexivity|reflexivity].
 Qed.
 
+Lemma option_N_eq_dec (a b : option N) : {a = b} + {a <> b}.
+Proof. decide equality. apply N.eq_dec. Qed.
+
 Lemma log_macro_miss_name n r fin p :
   qname_ok n = true -> name_end (render_items r fin) -> not_a_call r -> items_ok r fin ->
   run Utab SK r_log_macro NonAtomic false (mkIn (render_name n ++ render_items r fin)%list p) = Fail.
@@ -405,7 +413,33 @@ Proof.
         cbn [code_of render_item app]. rewrite run_str. cbn [Peg.rest strip_prefix N.eqb Pos.eqb pos do_skip].
         destruct Hr as (_ & _ & Hr2). rewrite (skip_lead r2 fin _ Hr2).
         unfold r_macro_args. rewrite run_rule. cbn [inner_atomicity]. rewrite run_seq.
-        rewrite str_miss; [reflexivity|]. rewrite first_code_head. exact Hnc.
+        destruct (option_N_eq_dec (first_code r2) (Some 40)) as [E40|E40].
+        -- (* "(" follows: then the arguments start with a plain character *)
+           specialize (Hnc E40). destruct r2 as [|[l2 it2] r3]; [discriminate|].
+           assert (Hit2 : render_item it2 = [40]).
+           { cbn [first_code] in E40. destruct Hr2 as (_ & Hi2 & _).
+             destruct it2 as [n2 l2' us2|n2 a2|n2|c2]; cbn [render_item item_ok] in *;
+               try (exfalso; destruct Hi2 as (Hn2 & _); apply qname_start in Hn2; rewrite render_name_cons in E40;
+                    cbn [app hd_error] in E40; inversion E40 as [E']; rewrite E' in Hn2; vm_compute in Hn2; discriminate).
+             cbn [hd_error] in E40. inversion E40. reflexivity. }
+           cbn [code_of]. rewrite Hit2. cbn [app]. rewrite run_str. cbn [Peg.rest strip_prefix N.eqb Pos.eqb pos do_skip].
+           destruct Hr2 as (_ & _ & Hr3). rewrite (skip_lead r3 fin _ Hr3).
+           unfold args_start_plain in Hnc. rewrite <- (first_code_head r3 fin) in Hnc.
+           destruct (code_of r3 fin) as [|c t] eqn:Ec; cbn [hd_error] in Hnc.
+           ++ reflexivity.
+           ++ destruct Hnc as (Hns & H34).
+              assert (Hca : code_ahead (c :: t)).
+              { rewrite <- Ec. destruct r3 as [|[l3 it3] r4]; [discriminate|]. cbn [code_of].
+                destruct Hr3 as (_ & Hi3 & _). eapply item_code_ahead; exact Hi3. }
+              rewrite run_seq, run_opt. rewrite target_arg_miss.
+              2:{ unfold target_word. cbn [strip_prefix]. destruct (N.eqb_spec 116 c) as [<-|]; [vm_compute in Hns; discriminate|reflexivity]. }
+              cbn [do_skip]. rewrite (skip_none _ _ Hca). rewrite run_seq, run_opt.
+              assert (Hkvp : forall q, run Utab SK r_kvp_args NonAtomic false (mkIn (c :: t) q) = Fail).
+              { intros q. unfold r_kvp_args. rewrite run_rule. cbn [inner_atomicity]. fold kv_body.
+                rewrite run_seq, run_seq. unfold kv_body at 1. rewrite run_seq. rewrite (kvp_key_miss c t q Hns). reflexivity. }
+              rewrite Hkvp. cbn [do_skip]. rewrite (skip_none _ _ Hca).
+              rewrite (string_literal_miss c t _ NonAtomic H34). reflexivity.
+        -- rewrite str_miss; [reflexivity|]. rewrite first_code_head. exact E40.
     + cbn [code_of]. rewrite str_miss; [reflexivity|].
       pose proof (length_item_pos it1) as Hl. destruct (render_item it1) as [|d t1]; [cbn in Hl; lia|].
       cbn [app hd_error] in *. intros Heq. inversion Heq. congruence.
